@@ -107,6 +107,22 @@ def histories(tier, seed):
                     elif j % 4 == 3 and space == "grid":
                         x = dict(x, bc="x")
                         p0 = dict(sc, space="grid", seed=77)
+                    elif j % 4 == 2:
+                        # the earlier simulation is the script under test with ONE parameter changed (same space type): anything
+                        # kept from one simulation to the next under a key that leaves that parameter out would be reused wrongly
+                        which = rng.choice(["interval", "dt", "ts", "policy", "system"])
+                        p0 = dict(sc, space=space, seed=77)
+                        if which == "interval":
+                            p0.update(policy="on_interval", interval=sc.get("interval", 1) * 2.5)
+                            x = dict(x, policy="on_interval", interval=sc.get("interval", 0.12 if kind != "gillespie" else 0.005))
+                        elif which == "dt":
+                            p0["dt"] = sc["dt"] * 2
+                        elif which == "ts":
+                            p0["ts"] = [t * 0.5 for t in sc["ts"]]
+                        elif which == "policy":
+                            p0["policy"] = "on_iteration" if sc["policy"] != "on_iteration" else "on_t_sample"
+                        else:
+                            p0["system"] = "rev" if sc["system"] != "rev" else "decay"
                     p1 = dict(scripts[(si + 2) % len(scripts)], space="graph", seed=78)
                     calls = schedule(rng, two)
                     kinds = {"e1": kind}
